@@ -44,7 +44,11 @@ type Record struct {
 func DecodeRecord(r io.Reader) (RecordType, []byte, uint32, error) {
 	var header [4]byte
 	if _, err := io.ReadFull(r, header[:]); err != nil {
-		if errors.Is(err, io.EOF) || errors.Is(err, io.ErrUnexpectedEOF) {
+		if errors.Is(err, io.ErrUnexpectedEOF) {
+			// A length field cut short is a torn record, not a clean end of log.
+			return 0, nil, 0, utils.ErrPartialRecord
+		}
+		if errors.Is(err, io.EOF) {
 			return 0, nil, 0, io.EOF
 		}
 		return 0, nil, 0, err
